@@ -8,6 +8,8 @@ CONSTANTS
   Record = FALSE
   Starts = {0}
   CtxChoices = {3}
+  HCs = {"plain"}
+  WireRich = FALSE
   Rich = FALSE
   Sim = FALSE
 SPECIFICATION LiveSpec
